@@ -8,5 +8,12 @@ CHECKS = {
         note="Trusted: pyvc's encoding of Python semantics, z3/cvc5, and the assumed contract of CPython's bisect_left/bisect_right (validated by the bounded stand-in on every run). Elements are NaN-free totally ordered numbers.",
         design_ref="DESIGN.md 5 (C18)",
     ),
+    "C06": dict(
+        category="proof",
+        technique="contract-based deductive verification (pyvc): representation invariant Repr(index, view) proved preserved by every Index mutator; database-level clauses by a labelled bounded stand-in",
+        text="The data-structure invariant Repr (DESIGN 3.4: every answer the index can give is a function of the storage view alone, i.e. equals that of a rebuilt index) is proved established by Index.__init__/_reset/build and preserved by insert, remove+update and their 15 helpers, for all index states, all points and all removal sets, with loop invariants (no bound). The database-level clauses (validity flag handling in TinyFlux) are not yet under contract and are served by the bounded differential stand-in, which also compares the live index with a rebuilt one after every step.",
+        note="Trusted: pyvc's encoding of Python semantics, z3/cvc5, the assumed contract of list.sort (stable permutation), two assumed pigeonhole lemma instances in Index.update, ownership of the index containers (A-alias). TinyFlux-level code (database.py) is covered only by the bounded stand-in in this round.",
+        design_ref="DESIGN.md 3.4, 5 (C06), 12",
+    ),
 }
-NOT_APPLICABLE = {p: WIP for p in ["C%02d" % i for i in range(1, 18)]}
+NOT_APPLICABLE = {p: WIP for p in ["C%02d" % i for i in range(1, 18)] if p not in CHECKS}
